@@ -1,45 +1,63 @@
 /-! # Nondet — where every syntactic source of nondeterminism of the consensus-critical packages goes (C02)
 
-`tools/goext nondet` regenerates `Aergo.Gen.NondetSites.sites` from the current source on every run: every
-`range` over a map (or over an expression whose type the extractor cannot resolve), every `.Range(f)` call,
-`time.Now/Since/Until`, every use of package `rand`, every `go` statement and every `select` statement in
-`chain`, `state`, `state/statedb`, `pkg/trie`, `contract/system`, `contract/name`, `contract/enterprise`,
-`types`, `consensus/chain`, `fee`, `internal/merkle` and the Go files of `contract`.
+`tools/goext nondet` regenerates `Aergo.Gen.NondetSites` from the current source on every run:
 
-This hand-kept table maps each site to
+* `sites`: every `range` over a map (or over an expression whose type the extractor cannot resolve), every
+  `.Range(f)` call, `time.Now/Since/Until`, every use of package `rand`, every `go` and `select` statement, every
+  `sort.*` / `slices.Sort*` call, every `ctx.Err()` / `ctx.Deadline()` poll, every read of the process environment
+  (`os.Getenv…`, `runtime.NumCPU…`), every `reflect` map walk / `maps.Keys`, every `%p` format, in **every package
+  of this module that `chain`, `consensus/chain` or `consensus/impl/dpos` transitively import** (`closure`; the scan
+  list must contain it: `Props.C02.closure_scanned`);
+* `loops`: for every map iteration of `sites`, what its **body** does: how it can leave the loop early, which
+  non-local targets it writes, which functions it calls, and a fingerprint of the printed body.
+
+This hand-kept file maps each site (`table`) to
 
 * `thm n`      – the theorem of `Props/C02.lean` proving that the modelled site does not depend on the iteration
-                 order / on which branch of the `select` was taken (the theorem must exist: checked in `Props/C02`);
+                 order / on which branch of the `select` was taken / on the moment the context expired (the theorem
+                 must exist: `Props.C02.cited_theorems_exist`);
 * `noState w`  – the reason why the site cannot feed the state root, the receipts or the receipts root
-                 (logging, statistics, RPC queries, locks, explicitly seeded generators, code not on the block
-                 execution path); argued by reading the code, not proved;
+                 (logging, statistics, RPC queries, locks, explicitly seeded generators, scheduling of block
+                 production, code not on the block execution path); argued by reading the code, not proved;
+* `ordered w`  – a `range?` whose operand is not a map at all (a slice or channel of a type of another module);
 * `sampled w`  – goroutine scheduling, or code behind the VM stub that cannot be built in this sandbox: *not*
                  carried by a theorem; goroutines are sampled by the repeated real executions of harness c02 under
-                 GOMAXPROCS 1, 4, 16.
+                 GOMAXPROCS 1, 4, 16
 
-`Props.C02.all_sites_covered` (by `decide`) says that every generated site has an entry (both lists are kept in
-ascending order so that the check is one linear pass). A new `range` over a
-map, a new goroutine, a new `time.Now` in these packages is a new key and breaks the build until somebody
-classifies it here. Core Lean only. -/
+and records, per map iteration (`loopTable`), the body summary the classification was made for. The classification
+is thereby tied to the loop **body**: an edit that makes a listed loop call another function, write another
+target or leave early no longer matches (`Props.C02.all_loops_match`), whatever its class; the bodies that a model of
+`Aergo.Determ` transcribes (`thm` sites and the `GatherTXs` loop) are pinned by fingerprint, so any edit of them
+has to be re-read against the model; a `noState` loop must not call a state-writing function
+(`Props.C02.noState_loops_call_no_state_writer`). Core Lean only. -/
 
 namespace Aergo.Nondet
 
 inductive Cover where
   | thm (name : String)
   | noState (why : String)
+  | ordered (why : String)
   | sampled (why : String)
 deriving Repr, DecidableEq
 
 def table : List (String × Cover) := [
+  ("account/key/aergo_storage.go:AergoStorage.List:range?:files",
+    .ordered "files is an os.ReadDir result (sorted by name); keystore listing for the account RPC"),
+  ("account/key/crypto/v1strategy.go:newIV:rand:rand.Reader",
+    .noState "keystore encryption (crypto/rand IV for an exported key file); not block execution"),
+  ("account/key/crypto/v1strategy.go:newSalt:rand:rand.Reader",
+    .noState "keystore encryption (crypto/rand salt for an exported key file); not block execution"),
   ("chain/chaindb.go:ChainDB.hardforkHeights:maprange:c",
     .noState "boot-time hardfork compatibility check: copies one map into another (content only); never part of block execution"),
   ("chain/chainhandle.go:ChainService.addBlockInternal:select:InAddBlock <- struct{}{}",
     .noState "acquires the chain lock (InAddBlock, capacity 1): mutual exclusion of block insertion, no data flows through the channel"),
   ("chain/chainservice.go:ChainWorker.Receive:range?:msg.StorageKeys",
-    .noState "RPC query handler (GetStateAndProof): msg.StorageKeys is a []string of another package (ordered); read-only"),
+    .ordered "msg.StorageKeys is a []string of another package (RPC query GetStateAndProof, read-only)"),
   ("chain/debugger.go:Debugger.Check:go:crashRandom",
     .noState "crash-injection debugger, enabled by an environment variable in tests only"),
   ("chain/debugger.go:handleCrashRandom:go:crashRandom",
+    .noState "crash-injection debugger, enabled by an environment variable in tests only"),
+  ("chain/debugger.go:newDebugger:env:os.Getenv",
     .noState "crash-injection debugger, enabled by an environment variable in tests only"),
   ("chain/reorg.go:ChainService.reorg:time:time.Now",
     .noState "duration of a reorganisation for the log/statistics"),
@@ -71,14 +89,82 @@ def table : List (String × Cover) := [
     .noState "test stub chain (not linked into block execution)"),
   ("chain/stubchain.go:StubBlockChain.GenAddBlock:time:time.Now#2",
     .noState "test stub chain (not linked into block execution)"),
+  ("cmd/aergoluac/luac/luac.go:DumpFromStdin:ctxpoll?:scanner.Err",
+    .noState "bufio.Scanner.Err of the luac command-line tool (not a context); the package is imported for the code encoding helpers"),
+  ("cmd/aergoluac/util/util.go:DecodeFromStdin:ctxpoll?:scanner.Err",
+    .noState "bufio.Scanner.Err of the luac command-line tool (not a context)"),
+  ("cmd/aergoluac/util/util.go:processLines:ctxpoll?:scanner.Err",
+    .noState "bufio.Scanner.Err of the luac command-line tool (not a context)"),
+  ("config/config.go:GetDefaultNumLStateClosers:env:runtime.NumCPU",
+    .noState "default size of a worker pool (Lua state closers): how many goroutines, not what they compute"),
+  ("config/config.go:ServerContext.GetDefaultBlockchainConfig:env:runtime.NumCPU",
+    .noState "default NumWorkers of the chain service (RPC query workers, Lua state pool size): how many goroutines, not what they compute; harness c02 runs the two nodes with different values"),
+  ("config/config.go:ServerContext.GetDefaultMempoolConfig:env:runtime.NumCPU",
+    .noState "default number of mempool signature verifiers: how many goroutines, not what they compute"),
+  ("config/hardfork.go:checkOlderNode:maprange:dbCfg",
+    .noState "boot-time hardfork compatibility check: an all-quantified test over the stored table, the verdict (error or not) does not depend on the order, only which offending entry the message names"),
   ("consensus/chain/block.go:SyncChain:select:err := <-notiC",
     .noState "waits for the syncer to finish"),
+  ("consensus/chain/tx.go:BlockGenerator.GatherTXs:ctxpoll:g.ctx.Err",
+    .thm "Aergo.Props.C02.producer_validator_agree"),
   ("consensus/chain/tx.go:BlockGenerator.GatherTXs:range?:txIn",
-    .noState "txIn is a []types.Transaction (slice of an interface type of another package): ordered"),
+    .ordered "txIn is a []types.Transaction (slice of an interface type of another package): the candidates in the order the tx source returned them; the loop itself is the `gather` of Aergo.Props.C02.producer_validator_agree"),
   ("consensus/chain/tx.go:BlockGenerator.GatherTXs:select:<-g.ctx.Done() | default",
     .thm "Aergo.Props.C02.producer_validator_agree"),
   ("consensus/chain/tx.go:LockNonblock:select:chain.InAddBlock <- struct{}{} | default",
     .noState "try-acquire of the chain lock"),
+  ("consensus/consensus.go:Start:go:bf.Start",
+    .noState "block-factory scheduling: when and whether this node produces a block; what a produced block contains is decided by GatherTXs (Pre argument of Aergo.Props.C02.producer_validator_agree)"),
+  ("consensus/consensus.go:Start:go:func() { ticker := c.Ticker() for now := range ticker.C { c.QueueJob(now, bf.JobQueue()) s…",
+    .noState "block-factory scheduling: when and whether this node produces a block; what a produced block contains is decided by GatherTXs (Pre argument of Aergo.Props.C02.producer_validator_agree)"),
+  ("consensus/consensus.go:Start:range?:ticker.C",
+    .ordered "ticker.C is a channel of time.Time: block-factory scheduling: when and whether this node produces a block; what a produced block contains is decided by GatherTXs (Pre argument of Aergo.Props.C02.producer_validator_agree)"),
+  ("consensus/consensus.go:Start:select:<-c.QuitChan() | default",
+    .noState "block-factory scheduling: when and whether this node produces a block; what a produced block contains is decided by GatherTXs (Pre argument of Aergo.Props.C02.producer_validator_agree)"),
+  ("consensus/impl/dpos/blockfactory.go:BlockFactory.Start:go:bf.controller",
+    .noState "block-factory scheduling: when and whether this node produces a block; what a produced block contains is decided by GatherTXs (Pre argument of Aergo.Props.C02.producer_validator_agree)"),
+  ("consensus/impl/dpos/blockfactory.go:BlockFactory.Start:go:bf.worker",
+    .noState "block-factory scheduling: when and whether this node produces a block; what a produced block contains is decided by GatherTXs (Pre argument of Aergo.Props.C02.producer_validator_agree)"),
+  ("consensus/impl/dpos/blockfactory.go:BlockFactory.Start:go:func() { go bf.worker() go bf.controller() }",
+    .noState "block-factory scheduling: when and whether this node produces a block; what a produced block contains is decided by GatherTXs (Pre argument of Aergo.Props.C02.producer_validator_agree)"),
+  ("consensus/impl/dpos/blockfactory.go:BlockFactory.checkBpTimeout:select:<-bf.bpTimeoutC | <-bf.quit | default",
+    .thm "Aergo.Props.C02.producer_validator_agree"),
+  ("consensus/impl/dpos/blockfactory.go:BlockFactory.controller:select:bf.workerQueue <- bfWork{execCtx: bfContext, bpi: bpi} | default",
+    .noState "block-factory scheduling: when and whether this node produces a block; what a produced block contains is decided by GatherTXs (Pre argument of Aergo.Props.C02.producer_validator_agree)"),
+  ("consensus/impl/dpos/blockfactory.go:BlockFactory.controller:select:info := <-bf.jobQueue | <-bf.quit",
+    .noState "block-factory scheduling: when and whether this node produces a block; what a produced block contains is decided by GatherTXs (Pre argument of Aergo.Props.C02.producer_validator_agree)"),
+  ("consensus/impl/dpos/blockfactory.go:BlockFactory.generateBlock:time:time.Now",
+    .noState "elapsed block-generation time handed to handleRejected (eviction of a tx that timed out from the mempool): the producer's later choice of candidates, not the execution of a block"),
+  ("consensus/impl/dpos/blockfactory.go:BlockFactory.generateBlock:time:time.Since",
+    .noState "elapsed block-generation time handed to handleRejected (eviction of a tx that timed out from the mempool): the producer's later choice of candidates, not the execution of a block"),
+  ("consensus/impl/dpos/blockfactory.go:BlockFactory.initContext:go:func() { select { case <-bf.quit: bf.ctxCancelFunc() } }",
+    .thm "Aergo.Props.C02.producer_validator_agree"),
+  ("consensus/impl/dpos/blockfactory.go:BlockFactory.initContext:select:<-bf.quit",
+    .thm "Aergo.Props.C02.producer_validator_agree"),
+  ("consensus/impl/dpos/blockfactory.go:BlockFactory.worker:select:bfw := <-bf.workerQueue | <-bf.quit",
+    .noState "block-factory scheduling: when and whether this node produces a block; what a produced block contains is decided by GatherTXs (Pre argument of Aergo.Props.C02.producer_validator_agree)"),
+  ("consensus/impl/dpos/bp/cluster.go:Cluster.BPs:maprange:c.member",
+    .noState "RPC/consensus-info listing of the BP set: every member is written to its own slot bps[index] (content does not depend on the order); on a JSON error the whole result is dropped"),
+  ("consensus/impl/dpos/bp/cluster.go:Snapshots.gc:maprange:sn.snaps",
+    .noState "garbage collection of old BP-set snapshots: deletes every entry below a bound (per-key, order independent); the BP set decides who may produce, not what execution yields"),
+  ("consensus/impl/dpos/lib.go:libStatus.calcLIB:maprange:ls.Prpsd",
+    .noState "DPoS last-irreversible-block bookkeeping (pre-LIB map per BP): decides which reorganisations are allowed, never enters the state root or the receipts of a block; its own determinism is the subject of C08"),
+  ("consensus/impl/dpos/lib.go:libStatus.calcLIB:sort:sort.Slice",
+    .noState "DPoS last-irreversible-block bookkeeping (pre-LIB map per BP): decides which reorganisations are allowed, never enters the state root or the receipts of a block; its own determinism is the subject of C08; the key (block number) is not total: two BPs proposing different blocks of one height tie (C08)"),
+  ("consensus/impl/dpos/lib.go:libStatus.load:maprange:tmp.Prpsd",
+    .noState "DPoS last-irreversible-block bookkeeping (pre-LIB map per BP): decides which reorganisations are allowed, never enters the state root or the receipts of a block; its own determinism is the subject of C08"),
+  ("consensus/impl/dpos/lib.go:proposed.gc:maprange:pm",
+    .noState "DPoS last-irreversible-block bookkeeping (pre-LIB map per BP): decides which reorganisations are allowed, never enters the state root or the receipts of a block; its own determinism is the subject of C08"),
+  ("consensus/impl/dpos/slot/slot.go:Now:time:time.Now",
+    .noState "the current slot: when this node produces; the block timestamp it leads to is part of the block header, i.e. input of the execution"),
+  ("consensus/impl/dpos/slot/slot.go:Slot.RemainingTimeMS:time:time.Now",
+    .noState "remaining time of the slot = the block-generation deadline: which candidates fit (Pre argument of Aergo.Props.C02.producer_validator_agree), not what they yield"),
+  ("consensus/impl/dpos/status.go:bootLoader.load:maprange:ls.Prpsd",
+    .noState "DPoS last-irreversible-block bookkeeping (pre-LIB map per BP): decides which reorganisations are allowed, never enters the state root or the receipts of a block; its own determinism is the subject of C08"),
+  ("consensus/raftCommon.go:ConfStateToString:range?:conf.Learners",
+    .ordered "[]uint64 of the raft library; log rendering"),
+  ("consensus/raftCommon.go:ConfStateToString:range?:conf.Nodes",
+    .ordered "[]uint64 of the raft library; log rendering"),
   ("contract/callback.go:deleteHandles:maprange:handleVals",
     .sampled "behind the VM stub (cgo, not buildable here): deletes the SQLite callback handles of one connection, per-key deletes"),
   ("contract/enterprise/config.go:GetConf:maprange:enterpriseKeyDict",
@@ -109,10 +195,16 @@ def table : List (String × Cover) := [
     .sampled "behind the VM stub: closes every open SQL database"),
   ("contract/statesql.go:SaveRecoveryPoint:maprange:database.DBs",
     .sampled "behind the VM stub: one PutState per open SQL database, each on its own contract account (keyed update, the shape of Aergo.Props.C02.updateStorage_perm_invariant); a failing commit returns early, which makes the set of saved points order dependent only on an SQL error"),
+  ("contract/statesql.go:litetree.snapshotView:ptrfmt:sqlLgr.Debug().Uint64(\"rp\", rp).Msgf",
+    .noState "debug log line"),
+  ("contract/system/validation.go:ValidateSystemTx:sort:sort.Slice",
+    .noState "sorts the candidate strings of a proposal for the membership search that follows (sort.SearchStrings); tied elements are equal strings, the sorted slice is not stored"),
   ("contract/system/voteresult.go:VoteResult.buildVoteList:maprange:vr.rmap",
     .thm "Aergo.Props.C02.buildVoteList_order_invariant"),
+  ("contract/system/voteresult.go:VoteResult.buildVoteList:sort:sort.Sort",
+    .thm "Aergo.Props.C02.voteList_order_unique"),
   ("contract/system/vprt.go:topVoters.dump:range?:tv.members.Values()",
-    .noState "RPC/debug dump of the rank; members.Values() is the in-order slice of a red-black tree"),
+    .ordered "members.Values() is the in-order slice of a red-black tree (RPC/debug dump of the rank)"),
   ("contract/system/vprt.go:vpr.apply:maprange:updRows",
     .thm "Aergo.Props.C02.vprRowWrites_perm_invariant"),
   ("contract/system/vprt.go:vpr.apply:maprange:v.changes",
@@ -143,8 +235,54 @@ def table : List (String × Cover) := [
     .noState "explicitly seeded from the previous block hash and the tx hash (system.random of a contract)"),
   ("contract/vm.go:toLuaTable:maprange:tab",
     .sampled "behind the VM stub: fills a Lua table from a JSON object in map order; whether Lua-side iteration order can observe insertion order is inside LuaJIT (not modelled)"),
+  ("contract/vm.go:toLuaTable:sort:sort.Strings",
+    .sampled "behind the VM stub: from hardfork 3 on the keys of a JSON object are sorted (distinct strings: total order) before the Lua table is filled; before v3 the table is filled in map order"),
   ("contract/vm_callback.go:luaCheckTimeout:select:<-ctx.execCtx.Done() | default",
     .thm "Aergo.Props.C02.producer_validator_agree"),
+  ("contract/vm_state.go:createRecoveryPoint:ptrfmt:fmt.Sprintf",
+    .sampled "behind the VM stub: the name of an SQL savepoint contains an address (%p); a name local to one connection, never stored in state"),
+  ("internal/common/signal.go:HandleKillSig:go:func() { for signal := range sigChannel { logger.Info().Msgf(\"Receive signal %s, Shutting …",
+    .noState "process signal handler"),
+  ("internal/network/address.go:ResolveHostDomain:range?:addrs",
+    .ordered "[]net.IP; p2p transport/identity code imported for types and helpers only; not called by block execution"),
+  ("p2p/p2pcommon/messagevalue.go:NewSimpleMsgVal:time:time.Now",
+    .noState "p2p transport/identity code imported for types and helpers only; not called by block execution"),
+  ("p2p/p2pcommon/messagevalue.go:NewSimpleRespMsgVal:time:time.Now",
+    .noState "p2p transport/identity code imported for types and helpers only; not called by block execution"),
+  ("p2p/p2pkey/nodekey.go:InitNodeInfo:time:time.Now",
+    .noState "p2p transport/identity code imported for types and helpers only; not called by block execution"),
+  ("p2p/p2putil/certificate.go:CheckAndGetV1:time:time.Now",
+    .noState "p2p transport/identity code imported for types and helpers only; not called by block execution"),
+  ("p2p/p2putil/certificate.go:NewAgentCertV1:time:time.Now",
+    .noState "p2p transport/identity code imported for types and helpers only; not called by block execution"),
+  ("p2p/p2putil/channelpipe.go:channelPipe.Open:go:c.run",
+    .noState "p2p transport/identity code imported for types and helpers only; not called by block execution"),
+  ("p2p/p2putil/channelpipe.go:channelPipe.run:select:mo := <-c.in | <-c.done | <-c.stop",
+    .noState "p2p transport/identity code imported for types and helpers only; not called by block execution"),
+  ("p2p/p2putil/multiaddr.go:ResolveToBestIp4Address:rand:rand.Intn",
+    .noState "p2p transport/identity code imported for types and helpers only; not called by block execution"),
+  ("p2p/p2putil/timedcall.go:InvokeWithTimer:go:m.DoCall",
+    .noState "p2p transport/identity code imported for types and helpers only; not called by block execution"),
+  ("p2p/p2putil/timedcall.go:InvokeWithTimer:select:hsResult := <-done | <-timer.C",
+    .noState "p2p transport/identity code imported for types and helpers only; not called by block execution"),
+  ("p2p/p2putil/util.go:ExternalIP:range?:ifs",
+    .ordered "[]net.Interface; p2p transport/identity code imported for types and helpers only; not called by block execution"),
+  ("pkg/component/component.go:BaseComponent.statics:time:time.Now",
+    .noState "actor statistics timestamp"),
+  ("pkg/component/hub.go:ComponentHub.Start:go:comp.Start",
+    .noState "starts every registered actor component at boot"),
+  ("pkg/component/hub.go:ComponentHub.Start:maprange:hub.components",
+    .noState "starts every registered actor component at boot (one goroutine each; no data flows between them at start)"),
+  ("pkg/component/hub.go:ComponentHub.Statistics:maprange:components",
+    .noState "actor statistics for the RPC/metric query"),
+  ("pkg/component/hub.go:ComponentHub.Statistics:maprange:components#1",
+    .noState "actor statistics for the RPC/metric query"),
+  ("pkg/component/hub.go:ComponentHub.Statistics:maprange:jobMap",
+    .noState "actor statistics for the RPC/metric query"),
+  ("pkg/component/hub.go:ComponentHub.Statistics:time:time.Now",
+    .noState "actor statistics for the RPC/metric query"),
+  ("pkg/component/hub.go:ComponentHub.Stop:maprange:hub.components",
+    .noState "stops every registered actor component at shutdown"),
   ("pkg/trie/trie.go:Trie.updateParallel:go:s.update",
     .sampled "two goroutines update the left and the right subtree on disjoint key ranges and disjoint batch slots; as two independent recursive calls the result is the canonical tree of the resulting map (Aergo.Props.C10.history_independent); the interleaving itself is sampled under GOMAXPROCS 1/4/16, not carried by a theorem"),
   ("pkg/trie/trie.go:Trie.updateParallel:go:s.update#1",
@@ -173,6 +311,8 @@ def table : List (String × Cover) := [
     .thm "Aergo.Props.C02.idxRollback_perm_invariant"),
   ("state/statedb/statebuffer.go:stateBuffer.export:maprange:buffer.indexes",
     .thm "Aergo.Props.C02.export_perm_invariant"),
+  ("state/statedb/statebuffer.go:stateBuffer.export:sort:sort.Slice",
+    .thm "Aergo.Props.C02.export_perm_invariant"),
   ("state/statedb/statebuffer.go:stateBuffer.stage:maprange:buffer.indexes",
     .thm "Aergo.Props.C02.dbSets_perm_invariant"),
   ("state/statedb/statedb.go:StateDB.Commit:maprange:states.Cache.storages",
@@ -183,10 +323,14 @@ def table : List (String × Cover) := [
     .thm "Aergo.Props.C02.cacheRollback_perm_invariant"),
   ("state/statedb/storage.go:storageCache.Snapshot:maprange:cache.storages",
     .thm "Aergo.Props.C02.cacheSnapshot_perm_invariant"),
+  ("types/blockchain.go:var DefaultVerifierCnt:env:runtime.NumCPU",
+    .noState "default number of signature verifier goroutines: how many, not what they compute (the block-level verdict is a conjunction); harness c02 runs the two nodes with different counts"),
   ("types/genesis.go:GetDefaultGenesis:time:time.Now",
     .noState "default/test genesis constructors (timestamp of a new genesis file), not block execution"),
   ("types/genesis.go:GetTestGenesis:time:time.Now",
     .noState "default/test genesis constructors (timestamp of a new genesis file), not block execution"),
+  ("types/message/msghelper.go:baseHelper.ExtractTxsFromResponse:range?:v.Txs",
+    .ordered "[]*types.Tx of a mempool answer, in the mempool's order; actor message helper"),
   ("types/receipt.go:FilterInfo.GetExArgFilter:maprange:argMap",
     .noState "event filter matching for RPC subscriptions (all-quantified comparison of two maps); read-only"),
   ("types/receipt.go:checkSameMap:maprange:value",
@@ -207,5 +351,226 @@ def coveredInOrder : List String → List String → Bool
 
 /-- theorem names the table refers to -/
 def citedTheorems : List String := table.filterMap (fun e => match e.2 with | .thm n => some n | _ => none)
+
+/-! ## the loop bodies -/
+
+/-- What the body of one map iteration does, as `goext nondet` summarises it (see the head of
+`tools/goext/nondet.go`), at the time the site was classified. `pin = some h`: the body is transcribed by a model
+of `Aergo.Determ`; `h` is the fingerprint of the printed body. -/
+structure LoopRow where
+  key : String
+  /-- `break`, `return`, `goto l`, labelled break/continue, `panic`: ways to leave the loop before every entry was
+  visited (then the *set* of visited entries depends on the order) -/
+  exits : String
+  /-- assignment targets that are not plain loop-local variables, `delete(m)`, channel sends -/
+  writes : List String
+  /-- functions and methods called (logger chains left out) -/
+  calls : List String
+  pin : Option String
+deriving Repr, DecidableEq
+
+def loopTable : List LoopRow := [
+  ⟨"account/key/aergo_storage.go:AergoStorage.List:range?:files",
+    "", ["ret"],
+    [".Name", "append", "regexp.MatchString", "strings.Index", "types.DecodeAddress"], none⟩,
+  ⟨"chain/chaindb.go:ChainDB.hardforkHeights:maprange:c",
+    "return", ["returned[_]"],
+    ["IsInteger", "make"], none⟩,
+  ⟨"chain/chainservice.go:ChainWorker.Receive:range?:msg.StorageKeys",
+    "", ["varProof.Key", "varProofs"],
+    [".GetVarAndProof", "append", "base58.Encode"], none⟩,
+  ⟨"chain/reorg.go:reorganizer.swapTxMapping:maprange:oldTxs",
+    "", [],
+    [".Delete"], some "060462b5a07d"⟩,
+  ⟨"chain/reorg.go:reorganizer.swapTxMapping:maprange:oldTxs#1",
+    "", [],
+    [".RequestTo"], some "5daa81927c6c"⟩,
+  ⟨"config/hardfork.go:checkOlderNode:maprange:dbCfg",
+    "return", [],
+    ["isFork", "newForkError", "strconv.ParseUint"], none⟩,
+  ⟨"consensus/chain/tx.go:BlockGenerator.GatherTXs:range?:txIn",
+    "break", ["txRes"],
+    [".Apply", ".GetHash", ".setRejected", ".tteEnabled", "append", "types.LogBase58"], some "34ecf9915717"⟩,
+  ⟨"consensus/consensus.go:Start:range?:ticker.C",
+    "return", [],
+    [".JobQueue", ".QueueJob", ".QuitChan"], none⟩,
+  ⟨"consensus/impl/dpos/bp/cluster.go:Cluster.BPs:maprange:c.member",
+    "break", ["bps", "bps[_]"],
+    [".String", "int", "json.Marshal", "strconv.FormatUint", "string", "uint64"], none⟩,
+  ⟨"consensus/impl/dpos/bp/cluster.go:Snapshots.gc:maprange:sn.snaps",
+    "", [],
+    [".del"], none⟩,
+  ⟨"consensus/impl/dpos/lib.go:libStatus.calcLIB:maprange:ls.Prpsd",
+    "", ["libInfos"],
+    ["append"], none⟩,
+  ⟨"consensus/impl/dpos/lib.go:libStatus.load:maprange:tmp.Prpsd",
+    "", ["ls.Prpsd[_]"],
+    [], none⟩,
+  ⟨"consensus/impl/dpos/lib.go:proposed.gc:maprange:pm",
+    "", ["delete(pm)"],
+    [], none⟩,
+  ⟨"consensus/impl/dpos/status.go:bootLoader.load:maprange:ls.Prpsd",
+    "", ["delete(ls.Prpsd)"],
+    [".Hash"], none⟩,
+  ⟨"consensus/raftCommon.go:ConfStateToString:range?:conf.Learners",
+    "", ["buf"],
+    ["fmt.Sprintf"], none⟩,
+  ⟨"consensus/raftCommon.go:ConfStateToString:range?:conf.Nodes",
+    "", ["buf"],
+    ["fmt.Sprintf"], none⟩,
+  ⟨"contract/callback.go:deleteHandles:maprange:handleVals",
+    "", ["delete(handleVals)"],
+    [], none⟩,
+  ⟨"contract/enterprise/config.go:GetConf:maprange:enterpriseKeyDict",
+    "", ["ret.Values"],
+    ["append"], none⟩,
+  ⟨"contract/hook_dbg.go:PrintBreakPoints:maprange:contract_info_map",
+    "", [],
+    [".Front", ".Next", "fmt.Printf"], none⟩,
+  ⟨"contract/hook_dbg.go:ResetBreakPoints:maprange:contract_info_map",
+    "", ["info.breakpoints"],
+    ["list.New"], none⟩,
+  ⟨"contract/hook_dbg.go:ResetContractInfo:maprange:contract_info_map",
+    "", ["info.src_path"],
+    [], none⟩,
+  ⟨"contract/statesql.go:CloseDatabase:maprange:database.DBs",
+    "", ["db.tx", "delete(database.DBs)", "err"],
+    [".close", ".rollback"], none⟩,
+  ⟨"contract/statesql.go:SaveRecoveryPoint:maprange:database.DBs",
+    "return", ["db.tx", "receiverChange.SqlRecoveryPoint"],
+    [".Clone", ".GetAccountState", ".PutState", ".commit", ".recoveryPoint", "uint64"], none⟩,
+  ⟨"contract/system/voteresult.go:VoteResult.buildVoteList:maprange:vr.rmap",
+    "", ["vote.Candidate", "voteList.Votes"],
+    ["([]byte)", ".Bytes", "append", "base58.Decode"], some "8d96700e6018"⟩,
+  ⟨"contract/system/vprt.go:topVoters.dump:range?:tv.members.Values()",
+    "break,return", [],
+    [".toJSON", "fmt.Fprint", "fmt.Fprintf", "litter.Sdump", "string"], none⟩,
+  ⟨"contract/system/vprt.go:vpr.apply:maprange:updRows",
+    "return", [],
+    [".write"], some "9de7510d0a08"⟩,
+  ⟨"contract/system/vprt.go:vpr.apply:maprange:v.changes",
+    "", ["delete(v.changes)", "nApplied", "updRows[_]"],
+    [".addTotal", ".addVotingPower", ".cmp", ".getAmount", ".update", ".updateLowest"], some "5929557a7552"⟩,
+  ⟨"contract/vm.go:executor.closeQuerySql:maprange:ctx.callState",
+    "return", ["err"],
+    [".close", "newVmError"], none⟩,
+  ⟨"contract/vm.go:executor.commitCalledContract:maprange:ctx.callState",
+    "return", ["err"],
+    [".PutState", ".release", "newDbSystemError", "newVmError", "statedb.StageContractState"], none⟩,
+  ⟨"contract/vm.go:executor.commitCalledContract:maprange:ctx.callState#1",
+    "", [],
+    [".Balance", ".Nonce", ".String", ".WriteString", "fmt.Sprintf"], none⟩,
+  ⟨"contract/vm.go:executor.rollbackToSavepoint:maprange:ctx.callState",
+    "return", ["err"],
+    [".CodeHash", ".Error", ".RemoveCache", ".begin", ".rollbackToSavepoint", "len", "newVmError", "strings.HasPrefix"], none⟩,
+  ⟨"contract/vm.go:toLuaTable:maprange:tab",
+    "", ["keys"],
+    ["append"], none⟩,
+  ⟨"internal/network/address.go:ResolveHostDomain:range?:addrs",
+    "", ["ips[_]"],
+    ["net.ParseIP"], none⟩,
+  ⟨"p2p/p2putil/util.go:ExternalIP:range?:ifs",
+    "return", [],
+    [".Addrs", "getValidIP"], none⟩,
+  ⟨"pkg/component/hub.go:ComponentHub.Start:maprange:hub.components",
+    "", [],
+    [".Start", "go"], none⟩,
+  ⟨"pkg/component/hub.go:ComponentHub.Statistics:maprange:components",
+    "", ["compStatus[_]"],
+    [".GetName", ".Status"], none⟩,
+  ⟨"pkg/component/hub.go:ComponentHub.Statistics:maprange:components#1",
+    "", ["jobMap[_]", "retCompStatistics[_]"],
+    [".RequestFuture", "StatusToString"], none⟩,
+  ⟨"pkg/component/hub.go:ComponentHub.Statistics:maprange:jobMap",
+    "", ["retCompStatistics[_]"],
+    [".Error", ".Get", ".MsgQueueLen", ".Result", "StatusToString", "uint64"], none⟩,
+  ⟨"pkg/component/hub.go:ComponentHub.Stop:maprange:hub.components",
+    "", [],
+    [".Stop"], none⟩,
+  ⟨"pkg/trie/trie_cache.go:CacheDB.commit:maprange:c.updatedNodes",
+    "", [],
+    [".Set", ".serializeBatch", "dbkey.Trie"], some "642466a01bc6"⟩,
+  ⟨"state/chain.go:ChainStateDB.SetGenesis:maprange:genesis.Balance",
+    "return", [],
+    [".AddBalance", ".PutState", ".SetString", "GetAccountState", "fmt.Errorf", "new", "types.ToAddress"], some "7eab8f925057"⟩,
+  ⟨"state/statedb/dump.go:Dump.MarshalJSON:maprange:d.Accounts",
+    "", ["mapAccounts[_]"],
+    [".String"], none⟩,
+  ⟨"state/statedb/dump.go:DumpAccount.MarshalJSON:maprange:d.Storage",
+    "", ["mapStorage[_]"],
+    [".String", "base58.Encode"], none⟩,
+  ⟨"state/statedb/statebuffer.go:bufferIndex.rollback:maprange:*idxs",
+    "", ["delete(*idxs)"],
+    [".peek", ".pop"], some "72d29d2d26f9"⟩,
+  ⟨"state/statedb/statebuffer.go:stateBuffer.export:maprange:buffer.indexes",
+    "", ["bufs"],
+    [".peek", "append"], some "ac2c09cdda13"⟩,
+  ⟨"state/statedb/statebuffer.go:stateBuffer.stage:maprange:buffer.indexes",
+    "return", [],
+    [".Hash", ".Set", ".Value", ".peek", "Marshal"], some "c1bd78cecd93"⟩,
+  ⟨"state/statedb/statedb.go:StateDB.Commit:maprange:states.Cache.storages",
+    "return", [],
+    [".DiscardLast", ".stage"], some "9fc1f875306b"⟩,
+  ⟨"state/statedb/statedb.go:StateDB.updateStorage:maprange:states.Cache.storages",
+    "return", ["st.StorageRoot"],
+    [".getState", ".isDirty", ".put", ".rollback", ".update", "newValueEntry", "types.HashID"], some "69d89f2d4cf7"⟩,
+  ⟨"state/statedb/storage.go:storageCache.Rollback:maprange:cache.storages",
+    "return", ["delete(cache.storages)"],
+    [".rollback"], some "eea6fcc54488"⟩,
+  ⟨"state/statedb/storage.go:storageCache.Snapshot:maprange:cache.storages",
+    "", ["result[_]"],
+    [".snapshot"], some "20e6e90d7ec7"⟩,
+  ⟨"types/message/msghelper.go:baseHelper.ExtractTxsFromResponse:range?:v.Txs",
+    "", ["res"],
+    [".GetTx", "append"], none⟩,
+  ⟨"types/receipt.go:FilterInfo.GetExArgFilter:maprange:argMap",
+    "return", ["argFilter[_].argNo", "argFilter[_].value", "i"],
+    ["errors.New", "int", "strconv.ParseInt"], none⟩,
+  ⟨"types/receipt.go:checkSameMap:maprange:value",
+    "return", [],
+    ["checkValue"], none⟩
+]
+
+/-- Callee names that write block state, receipts or the state database (by name: a heuristic list, kept
+generous). A loop classified `noState` must call none of them. -/
+def stateWriters : List String := [
+  ".SetData", ".DeleteData", ".PutState", ".AddBalance", ".SubBalance", ".SetNonce", ".SetCode", ".SetStorageRoot",
+  "statedb.StageContractState", "state.SendBalance", ".Set", ".Delete", ".put", ".Put", ".push", ".AddReceipt",
+  ".AddInternalOps", ".AddEvent", ".Update", ".update", ".Commit", ".commit", ".stage", ".Stage", ".write",
+  ".Rollback", ".rollback", ".Snapshot", ".snapshot", ".Apply", ".addVotingPower", ".addTotal", ".RemoveCache",
+  "SendBlockReward", ".SendBlockReward", "sendRewardCoinbase", "sendVotingReward"]
+
+/-- one generated row against one recorded row -/
+def rowMatches (g : String × String × List String × List String × String) (r : LoopRow) : Bool :=
+  g.1 == r.key && g.2.1 == r.exits && g.2.2.1 == r.writes && g.2.2.2.1 == r.calls &&
+    (match r.pin with | none => true | some h => h == g.2.2.2.2)
+
+/-- the generated rows and the recorded rows agree one by one (both lists are in ascending key order) -/
+def loopsMatch : List (String × String × List String × List String × String) → List LoopRow → Bool
+  | [], [] => true
+  | g :: gs, r :: rs => rowMatches g r && loopsMatch gs rs
+  | _, _ => false
+
+/-- the generated rows that do not match (diagnostic message only) -/
+def loopDiffs (gen : List (String × String × List String × List String × String)) : List String :=
+  gen.filterMap fun g =>
+    match loopTable.find? (fun r => r.key == g.1) with
+    | none => some s!"{g.1}: no row in Aergo.Nondet.loopTable (body now: exits={g.2.1} writes={g.2.2.1} calls={g.2.2.2.1} fingerprint={g.2.2.2.2})"
+    | some r => if rowMatches g r then none else
+        some s!"{g.1}: the loop body changed since it was classified: exits {r.exits} -> {g.2.1}; writes {r.writes} -> {g.2.2.1}; calls {r.calls} -> {g.2.2.2.1}; fingerprint {r.pin} -> {g.2.2.2.2} (re-read the body, re-classify the site in Aergo.Nondet.table, update the row)"
+
+def coverOf (k : String) : Option Cover := (table.find? (fun e => e.1 == k)).map (·.2)
+
+/-- rows of sites classified `thm` carry a fingerprint -/
+def thmRowsPinned : Bool :=
+  loopTable.all fun r => match coverOf r.key with
+    | some (.thm _) => r.pin.isSome
+    | _ => true
+
+/-- rows of sites classified `noState` call no state writer -/
+def noStateRowsClean : Bool :=
+  loopTable.all fun r => match coverOf r.key with
+    | some (.noState _) => r.calls.all (fun c => !stateWriters.contains c)
+    | _ => true
 
 end Aergo.Nondet
